@@ -360,4 +360,37 @@ def r7(ctx):
 
 EXPLANATION = EXPLANATION + " (R7) the receive window is updated only for authenticated datagrams (shared C01.R4): a damaged or forged datagram must not be acknowledged nor make its intact copy look like a duplicate."
 
-RULES = [("C08.R1", r1), ("C08.R2", r2), ("C08.R3", r3), ("C08.R4", r4), ("C08.R5", r5), ("C08.R6", r_idioms), ("C08.R7", r7)]
+def r8(ctx):
+    """the window only moves forward through its own operations: the state of a BitField (current_seqnum, bits) is written by
+    BitField.__init__ and BitField.insert and by nothing else in the package, and the two window objects of a connection are bound
+    in its constructor only.  Code that puts an earlier window back (an "undo" after a handler error) erases a datagram that was
+    received, authenticated and partly delivered: later headers no longer name it, the peer's callback reports a loss for a
+    delivered message, and its replay is accepted as new."""
+    own = {"connection:BitField.__init__", "connection:BitField.insert"}
+    writers, binds = [], []
+    for f in ctx.repo.funcs.values():
+        if f.is_lambda:
+            continue
+        for n in walk_own(f.node):
+            tg = n.targets if isinstance(n, ast.Assign) else [n.target] if isinstance(n, (ast.AugAssign, ast.AnnAssign)) else []
+            for t in tg:
+                for x in ast.walk(t):
+                    if isinstance(x, ast.Attribute) and isinstance(x.ctx, (ast.Store, ast.Del)):
+                        recv = norm(x.value)
+                        if x.attr in ("bits", "current_seqnum") and (recv.endswith(("bitfield_pkt", "bitfield_msg")) or (f.cls is not None and f.cls.name == "BitField" and recv == "self")):
+                            writers.append(f.qual)
+                        if x.attr in ("bitfield_pkt", "bitfield_msg"):
+                            binds.append(f.qual)
+            if isinstance(n, ast.Call) and isinstance(n.func, ast.Name) and n.func.id == "setattr" and len(n.args) >= 2 and isinstance(n.args[1], ast.Constant) \
+                    and n.args[1].value in ("bits", "current_seqnum", "bitfield_pkt", "bitfield_msg"):
+                writers.append(f.qual + " (setattr)")
+    ctx.check(set(writers) == own, "C08.R8", ctx.fn("connection:BitField.insert"), "window state (current_seqnum, bits) is written by BitField.__init__ and BitField.insert only",
+              "a received datagram is never taken out of the window again", witness=sorted(set(writers) - own) or sorted(set(writers)))
+    ctx.check(set(binds) == {"connection:ConnectionBase.__init__"}, "C08.R8", ctx.fn("connection:ConnectionBase.__init__"), "the datagram and message windows are bound in the connection's constructor only",
+              witness=sorted(set(binds)))
+
+
+EXPLANATION = EXPLANATION + (" (R8) the state of a receive window is written by BitField.__init__ and BitField.insert only, and a connection's two windows are bound in its constructor "
+                             "only: nothing puts an earlier window back, so a datagram once recorded stays acknowledged and stays a duplicate.")
+
+RULES = [("C08.R1", r1), ("C08.R2", r2), ("C08.R3", r3), ("C08.R4", r4), ("C08.R5", r5), ("C08.R6", r_idioms), ("C08.R7", r7), ("C08.R8", r8)]
